@@ -50,8 +50,14 @@ type Box struct {
 	// PlagEmpty: plag(n) only while n's persisted log is empty (a joiner whose application is
 	// slow from the moment it joins)
 	PlagEmpty    bool     `json:"plag_only_while_the_log_of_the_node_is_empty,omitempty"`
-	ConfVariants []uint16 `json:"-"` // nil: every conf-change variant
+	ConfVariants []uint16 `json:"-"` // nil: every conf-change variant below ccDefaultVariants
 	ConfNames    []string `json:"conf_change_variants,omitempty"`
+	// proposeBatch: the shapes of multi-entry proposals (nil: every shape) and the conf-change
+	// variants used inside them (nil: ConfVariants)
+	BatchShapes  []uint16 `json:"-"`
+	BatchConf    []uint16 `json:"-"`
+	BatchNames   []string `json:"batch_shapes,omitempty"`
+	BatchCNames  []string `json:"batch_conf_change_variants,omitempty"`
 	Restrictions []string `json:"stated_restrictions,omitempty"`
 	// CollectAll (Box B): a violation does not abandon the box at once; the current deviation
 	// layer is finished first (violating transitions are never expanded), so that every
@@ -82,6 +88,14 @@ func (b *Box) finish() *Box {
 	for _, v := range b.ConfVariants {
 		b.ConfNames = append(b.ConfNames, ccNames[v])
 	}
+	if b.has(evBatch) {
+		for _, sh := range b.batchShapes() {
+			b.BatchNames = append(b.BatchNames, bsNames[sh])
+		}
+		for _, v := range b.batchConf() {
+			b.BatchCNames = append(b.BatchCNames, ccNames[v])
+		}
+	}
 	if b.Mode == "B" && b.Bud.Delays > 0 {
 		b.KindNames = append(b.KindNames, "release (of a delayed message, at quiescence)")
 		if b.Devs&(1<<evRelease) != 0 {
@@ -101,6 +115,31 @@ func kinds(ks ...uint8) uint32 {
 
 func (b *Box) has(k uint8) bool { return b.Kinds&(1<<k) != 0 }
 
+func (b *Box) batchShapes() []uint16 {
+	if b.BatchShapes != nil {
+		return b.BatchShapes
+	}
+	all := make([]uint16, bsShapes)
+	for i := range all {
+		all[i] = uint16(i)
+	}
+	return all
+}
+
+func (b *Box) batchConf() []uint16 {
+	if b.BatchConf != nil {
+		return b.BatchConf
+	}
+	if b.ConfVariants != nil {
+		return b.ConfVariants
+	}
+	all := make([]uint16, ccDefaultVariants)
+	for i := range all {
+		all[i] = uint16(i)
+	}
+	return all
+}
+
 type cand struct {
 	ev   Event
 	cost uint8
@@ -113,6 +152,17 @@ func (b *Box) candidates(c *cluster, dev int) []cand {
 	drivers := func(cost uint8, only uint32) {
 		for i := range c.nodes {
 			n := uint8(i + 1)
+			if b.has(evBatch) && only&(1<<evBatch) != 0 && !(b.LeaderPropose && !c.nodes[i].isLeader()) {
+				for _, sh := range b.batchShapes() {
+					if !bsHasConf(sh) {
+						out = append(out, cand{Event{K: evBatch, N: n, A: sh << 8}, cost})
+						continue
+					}
+					for _, v := range b.batchConf() {
+						out = append(out, cand{Event{K: evBatch, N: n, A: sh<<8 | v}, cost})
+					}
+				}
+			}
 			for _, k := range []uint8{evCampaign, evPropose, evHeartbeat, evCrash, evRestart, evCompact, evExpire, evLag, evApply, evUnlag, evPLag, evPersist, evUnplag} {
 				if k == evPropose && b.LeaderPropose && !c.nodes[i].isLeader() {
 					continue
@@ -144,7 +194,7 @@ func (b *Box) candidates(c *cluster, dev int) []cand {
 						out = append(out, cand{Event{K: evConf, N: n, A: v}, cost})
 					}
 				} else {
-					for v := uint16(0); v < ccVariants; v++ {
+					for v := uint16(0); v < ccDefaultVariants; v++ {
 						out = append(out, cand{Event{K: evConf, N: n, A: v}, cost})
 					}
 				}
@@ -235,7 +285,7 @@ func (b *Box) candidates(c *cluster, dev int) []cand {
 			out = append(out, cand{Event{K: evDup, A: s}, 1})
 		}
 	}
-	drivers(1, b.Devs&kinds(evCampaign, evPropose, evCrash, evRestart, evIsolate, evLag, evApply, evPLag, evPersist))
+	drivers(1, b.Devs&kinds(evCampaign, evPropose, evCrash, evRestart, evIsolate, evLag, evApply, evPLag, evPersist, evConf, evBatch))
 	return out
 }
 
